@@ -78,6 +78,7 @@ def register(R):
         tags="C04 C11",
     )
     register_retry(R)
+    register_socket(R)
     R.module("easynetwork/lowlevel/api_sync/transports/abc.py")
     R.contract(
         "StreamWriteTransport.send_all_from_iterable",
@@ -119,6 +120,7 @@ def register_retry(R):
         ensures=[
             ("callback-returned-exactly-once", "ghost.cb_returned == old(ghost.cb_returned) + 1", "C04 C11"),
             ("returned-budget-non-negative", "isinf(result[1]) or fin(result[1]) >= 0", "C11"),
+            ("clock-and-waited-time-are-monotonic", "ghost.waited >= old(ghost.waited) and ghost.now >= old(ghost.now)", "C11"),
             ("total-blocking-within-budget", f"isinf({T}) or (not isinf(result[1]) and {W} + fin(result[1]) <= fin({T}))", "C11"),
             ("returned-budget-not-understated", f"implies(not isinf({T}), fin({T}) - {EL} <= fin(result[1]))", "C11"),
             ("no-unbounded-wait-with-a-finite-budget", f"implies(not isinf({T}), ghost.unbounded_waits == old(ghost.unbounded_waits))", "C11"),
@@ -140,5 +142,80 @@ def register_retry(R):
             "BaseException": [("callback-failure-propagates-unchanged", "True")],
         },
         modifies=["ghost.now", "ghost.waited", "ghost.select_calls", "ghost.unbounded_waits", "ghost.last_wait", "ghost.cb_returned", "ghost.cb_failed"],
+        env={"higher_order": {"param": "callback", "retry_on": ["WouldBlockOnRead", "WouldBlockOnWrite"],
+                              "own_raises": ["ValueError", "TimeoutError", "OSError", "RuntimeError"],
+                              "callback_failed_flags": ["ghost.cb_failed"], "result_rest": "xreal",
+                              "effect_free_ghosts": ["WIRE", "IN", "EOF", "recv_calls"]}},
         tags="C11",
+    )
+
+
+def register_socket(R):
+    """SocketStreamTransport.send_all_from_iterable (sendmsg loop) and _utils.adjust_leftover_buffer — C04 (DESIGN A7)."""
+    R.external("collections.deque", "stubs.transports.deque")
+    R.external("itertools.islice", "stubs.transports.islice")
+    R.symbolic_const("easynetwork/lowlevel/constants.py:SC_IOV_MAX", "int")
+    R.module("verif-stubs/transports.py")
+    R.shape("deque", cls="deque", fields={"items": "bytesseq"})
+    R.shape("Socket", cls="Socket", fields={})
+    R.module("easynetwork/lowlevel/_utils.py")
+    R.contract(
+        "adjust_leftover_buffer",
+        params={"buffers": "deque", "nbytes": "int"},
+        requires=[("sent-count-in-range", "0 <= nbytes and nbytes <= len(flat(buffers.items))")],
+        loops={1: {"inv": ["0 <= nbytes", "nbytes <= old(nbytes)", "nbytes <= len(flat(buffers.items))",
+                           "implies(old(nbytes) == 0, buffers.items == old(buffers.items))", "len(buffers.items) <= len(old(buffers.items))",
+                           "flat(buffers.items) == flat(old(buffers.items))[old(nbytes) - nbytes:]"],
+                   "variant": "nbytes + len(buffers.items)",
+                   "body_hints": [("head-and-tail", "len(buffers.items) >= 1 and flat(buffers.items) == buffers.items[0] + flat(tail(buffers.items))")]},
+               2: {"inv": ["flat(buffers.items) == flat(old(buffers.items))[old(nbytes):]", "len(buffers.items) <= len(old(buffers.items))",
+                           "implies(len(old(buffers.items)) >= 1 and len(old(buffers.items)[0]) == 0 and old(nbytes) == 0, "
+                           "len(buffers.items) < len(old(buffers.items)) or (len(buffers.items) == len(old(buffers.items)) and buffers.items == old(buffers.items)))"],
+                   "variant": "len(buffers.items)",
+                   "body_hints": [("head-and-tail", "len(buffers.items) >= 1 and flat(buffers.items) == buffers.items[0] + flat(tail(buffers.items))")]}},
+        ensures=[
+            ("no-exhausted-buffer-left-at-the-head", "len(buffers.items) == 0 or len(buffers.items[0]) >= 1", "C04"),
+            ("an-empty-head-is-dropped", "implies(len(old(buffers.items)) >= 1 and len(old(buffers.items)[0]) == 0 and old(nbytes) == 0, len(buffers.items) < len(old(buffers.items)))", "C04"),
+            ("exactly-the-sent-prefix-is-dropped", "flat(buffers.items) == flat(old(buffers.items))[old(nbytes):]", "C04"),
+            ("never-more-buffers", "len(buffers.items) <= len(old(buffers.items))", "C04"),
+        ],
+        modifies=["buffers.items"],
+        tags="C04",
+    )
+    R.module("easynetwork/lowlevel/api_sync/transports/socket.py")
+    R.module("easynetwork/lowlevel/_utils.py")
+    R.contract("supports_socket_sendmsg", params={"sock": "obj"}, result="bool", trusted=True, ensures=["True"])
+    R.module("easynetwork/lowlevel/api_sync/transports/socket.py")
+    R.shape("SocketStreamTransport", cls="SocketStreamTransport",
+            fields={"__socket": "Socket", "_retry_interval": "xreal", "_selector_factory": "fn:stubs.transports:selector_factory"},
+            invariant=[("retry-interval-positive", "isinf(self._retry_interval) or fin(self._retry_interval) > 0")])
+    T = "old(timeout)"
+    W = "(ghost.waited - old(ghost.waited))"
+    R.contract(
+        "SocketStreamTransport.send_all_from_iterable",
+        params={"iterable_of_data": "bytesseq", "timeout": "xreal"},
+        requires=[("non-negative-timeout", "isinf(timeout) or fin(timeout) >= 0")],
+        loops={1: {"inv": [
+            "ghost.WIRE + flat(buffers.items) == old(ghost.WIRE) + flat(old(iterable_of_data))",
+            "isinf(timeout) or fin(timeout) >= 0",
+            f"isinf({T}) or (not isinf(timeout) and {W} + fin(timeout) <= fin({T}))",
+            "ghost.waited >= old(ghost.waited)",
+            "len(flat(buffers.items)) <= len(flat(old(iterable_of_data)))",
+        ], "variant": "len(flat(buffers.items)) + len(buffers.items)"}},
+        ensures=[
+            ("wire-gets-exactly-the-concatenation-of-the-chunks", "ghost.WIRE == old(ghost.WIRE) + flat(old(iterable_of_data))", "C04"),
+            ("total-blocking-within-budget", f"isinf({T}) or {W} <= fin({T})", "C11"),
+        ],
+        raises={
+            "OSError": [("only-a-prefix-was-written", "len(ghost.WIRE) >= len(old(ghost.WIRE))", "C04"),
+                        ("total-blocking-within-budget", f"isinf({T}) or {W} <= fin({T})", "C11")],
+            "RuntimeError": [("infinite-wait-reported-nothing", f"isinf({T})", "C11")],
+        },
+        modifies=["ghost.WIRE", "ghost.now", "ghost.waited", "ghost.select_calls", "ghost.unbounded_waits", "ghost.last_wait", "ghost.cb_returned", "ghost.cb_failed"],
+        env={"call_hints": {
+            "_retry": [("sendmsg-wrote-a-prefix-of-the-pending-bytes",
+                        "0 <= result[0] and result[0] <= len(flat(buffers.items)) and ghost.WIRE == pre(ghost.WIRE) + flat(buffers.items)[:result[0]]")],
+            "adjust_leftover_buffer": [("conservation", "ghost.WIRE + flat(buffers.items) == old(ghost.WIRE) + flat(old(iterable_of_data))")],
+        }},
+        tags="C04 C11",
     )
